@@ -168,6 +168,13 @@ m("m67", ML, "MainLoop::executeRead", "wrong default for the maximum cache age (
 m("m74", RQ, "RequestImpl::waitResponse", "request buffer not cleared after the response was fetched (dropped reset: the next line of the connection is appended to the previous one)", "C18",
   "  m_request.clear();\n  *result = m_result;", "  *result = m_result;")
 
+m("m66", RQ, "RequestImpl::add", "the end-of-request search only looks at the newly added piece, not at the accumulated buffer (an HTTP header end or CR LF split over two recv pieces is missed)", "C18",
+  "  if (request && request[0]) {\n    string add = request;\n    add.erase(remove(add.begin(), add.end(), '\\r'), add.end());\n    m_request.append(add);\n  }\n  size_t pos = m_request.find(m_isHttp ? \"\\n\\n\" : \"\\n\");",
+  "  size_t from = 0;\n  if (request && request[0]) {\n    string add = request;\n    add.erase(remove(add.begin(), add.end(), '\\r'), add.end());\n    from = m_request.length();\n    m_request.append(add);\n  }\n  size_t pos = m_request.find(m_isHttp ? \"\\n\\n\" : \"\\n\", from);")
+
+m("m68", MSG, "MessageMap::addDefaultFromFile (default rows)", "a default row whose circuit column is only `#level` (e.g. `*w,#install`) keeps the default circuit but loses the level", "C16",
+  "        value = defaultCircuit+defaultSuffix+value;\n      } else if (!defaultSuffix.empty()", "        value = defaultCircuit+defaultSuffix;\n      } else if (!defaultSuffix.empty()")
+
 
 def main():
     rows = []
